@@ -90,7 +90,9 @@ func (h *Handler6) startRADVS(managed bool, other bool, prefixes []packet.Prefix
 	radvs.Router.RDNSS = rdnss
 	radvs.h = h
 
-	go radvs.sendAdvertistementLoop()
+	// the interval is fixed here: the router record is shared with the packet loop, which rewrites its timers when a
+	// router advertisement arrives that claims our own link-local address as its source
+	go radvs.sendAdvertistementLoop(time.Duration(radvs.Router.RetransTimer) * time.Millisecond)
 
 	return radvs, nil
 }
@@ -103,9 +105,9 @@ func (r *RADVS) SendRA() error {
 	return r.h.session.ICMP6SendRouterAdvertisement(r.Router.Prefixes, r.Router.RDNSS, packet.IP6AllNodesAddr)
 }
 
-func (r *RADVS) sendAdvertistementLoop() {
+func (r *RADVS) sendAdvertistementLoop(interval time.Duration) {
 	r.h.session.ICMP6SendRouterAdvertisement(r.Router.Prefixes, r.Router.RDNSS, packet.IP6AllNodesAddr)
-	ticker := time.NewTicker(time.Duration(int64(time.Millisecond) * int64(r.Router.RetransTimer))).C
+	ticker := time.NewTicker(interval).C
 	for {
 		select {
 		case <-r.stopChannel:
